@@ -156,7 +156,7 @@ func runC36(c *Ctx) {
 		}
 		desc = append(desc, fmt.Sprint(plans[i].ops))
 	}
-	w := c.NewWorld(simrt.Config{LockYield: true, PreemptPct: 10 + 20*ch.Pick(4, "preempt")})
+	w := c.NewWorld(simrt.Config{LockYield: true, UnlockYield: ch.Bool(50, "unlockyield"), PreemptPct: 10 + 20*ch.Pick(4, "preempt")})
 	defer w.Close()
 	ResetStamp()
 	cache := tls.NewLRUClientSessionCache(capacity)
